@@ -13,7 +13,7 @@ from ..world import World, inventory, inv_brief
 ID = "C10"
 LEVEL = "exploration"
 BUDGET = {"quick": {"n": 250, "trunc_reports": 3, "short_len": 2, "wall_s": 420}, "thorough": {"n": 6000, "trunc_reports": 40, "short_len": 3, "wall_s": 3300}}
-RULE = ("(short names, exhaustive) every string of 1..2 (thorough 1..3) symbols of a 17-symbol alphabet {space, tab, LF, CR, quotes, "
+RULE = ("(long paths) 4 worlds with paths near PATH_MAX and paths whose escaped form exceeds it several times. (short names, exhaustive) every string of 1..2 (thorough 1..3) symbols of a 17-symbol alphabet {space, tab, LF, CR, quotes, "
         "backslash, $, *, #, comma, colon, an invalid UTF-8 byte, a 2-byte character, -, ., a} as a file name and as a directory "
         "name, through the roundtrip below. (roundtrip) seeded worlds with hostile name alphabets incl. confusable siblings, --isolate roots with hostile "
         "names; `group` writes text and JSON; `remove --dry-run` reads each back: the sequence of raw paths it stats must "
@@ -85,8 +85,25 @@ def short_name_worlds(maxlen, per_world=40):
         yield w
 
 
+def long_path_worlds():
+    """paths near PATH_MAX, and paths whose ESCAPED form is several times longer than PATH_MAX"""
+    out = []
+    for comp, depth in ((b"\xe0\xe1\xe2\xe3\xe4" * 50, 5), (b"n" * 255, 15), (b"\x01\x7f\t" * 80, 8), ("\u017c\u00f3\u0142w ".encode() * 25, 12)):
+        w = World()
+        d = "/".join([b2s(comp)] * depth)
+        for k, side in enumerate(("a", "b", "c")):
+            w.add_file("r/%s/%s/f" % (side, d), {"hex": b"long path".hex()})
+        w.add_file("r/a/plain", {"hex": b"other".hex()})
+        w.add_file("r/b/plain", {"hex": b"other".hex()})
+        out.append(w)
+    return out
+
+
 def gen_cases(tier, seed):
     b = BUDGET[tier]
+    for wi, w in enumerate(long_path_worlds()):
+        yield {"i": 3 * 10**6 + wi, "kind": "roundtrip", "cfg": None, "world": w.to_json(), "roots": ["r"],
+               "gflags": [], "seam_seed": 7}
     for wi, w in enumerate(short_name_worlds(b["short_len"])):
         yield {"i": 2 * 10**6 + wi, "kind": "roundtrip", "cfg": None, "world": w.to_json(), "roots": ["r"],
                "gflags": ["--hidden"], "seam_seed": 7}
